@@ -57,7 +57,7 @@ func realModel(inputs []string, ranks map[string]int, inits map[string]tensor.Te
 	for _, o := range outputs {
 		g.Output = append(g.Output, &onnx.ValueInfoProto{Name: o})
 	}
-	b, _ := proto.Marshal(&onnx.ModelProto{IrVersion: 7, OpsetImport: []*onnx.OperatorSetIdProto{{Version: 13}}, Graph: g})
+	b, _ := proto.Marshal(&onnx.ModelProto{IrVersion: 7, OpsetImport: opsetSpelling(13, len(nodes)+len(inputs)+len(inits)), Graph: g})
 	return b
 }
 
